@@ -272,7 +272,14 @@ def rule_or(ctx: Ctx):
     fn = ctx.fn("TransitionList.__or__")
     for p in ctx.paths(fn, inline=None, exc_edges="none"):
         v = xshow(p.value, p.events) if p.kind == "return" else ""
-        rep.check(v == f"TransitionList(self.transitions).add_transitions({fn.params[1]})", "C15.or", fn.loc(),
+        ok = v == f"TransitionList(self.transitions).add_transitions({fn.params[1]})"
+        if not ok and p.kind == "return" and isinstance(p.value, ast.Name) and p.value.id.startswith("$c"):
+            # the new list is built, extended in place, then returned
+            ext = [e for e in p.calls() if isinstance(e.term.func, ast.Attribute) and show(e.term.func.value) == p.value.id]
+            ok = v == "TransitionList(self.transitions)" and [(e.term.func.attr, [xshow(a, p.events) for a in e.term.args]) for e in ext] == \
+                [("add_transitions", [fn.params[1]])]
+            v = v + "".join(f"; .{e.term.func.attr}({', '.join(xshow(a, p.events) for a in e.term.args)})" for e in ext)
+        rep.check(ok, "C15.or", fn.loc(),
                   "`a | b` is a new list with a's transitions followed by b's, the very same Transition objects", fn.key, f"return {v}")
     init = ctx.fn("TransitionList.__init__")
     st = {}
@@ -346,6 +353,20 @@ def rule_events(ctx: Ctx):
         if one and one[0].x["taken"]:
             rep.check(show(v) == "[self]", "C15.events", sp.loc(), "splitting a single-id Event keeps the Event object (its name and transitions)", sp.key,
                       f"return {show(v)}")
+        elif one and isinstance(p.value, ast.Name) and p.value.id.startswith("$l"):
+            # explicit loop: one Event per part, unfiltered
+            evs = p.events
+            marks = [e for e in evs if e.kind in ("iter", "exhaust") and e.x.get("loop", "for") == "for" and "super().split" in xshow(e.term, evs)]
+            ok = bool(marks)
+            for a, b in zip(marks, marks[1:]):
+                if a.kind != "iter":
+                    continue
+                seg = evs[a.idx + 1: b.idx]
+                apps = [e for e in seg if e.kind == "call" and show(e.term.func) == f"{p.value.id}.append"]
+                ok = ok and len(apps) == 1 and not any(x.kind == "branch" for x in seg) and \
+                    show(expand1(apps[0].term.args[0], evs)) in (f"Event({show(a.x['elem'])})", f"Event(id={show(a.x['elem'])})")
+            outside = [e for e in p.calls() if show(e.term.func).startswith(p.value.id + ".") and not any(a.idx < e.idx < b.idx for a, b in zip(marks, marks[1:]))]
+            rep.check(ok and not outside, "C15.events", sp.loc(), "splitting a multi-id Event gives one Event per id", sp.key, "explicit loop over the parts")
         elif one:
             ok = isinstance(v, ast.ListComp) and show(v.elt).startswith("Event(") and "super().split" in xshow(v.generators[0].iter, p.events)
             rep.check(ok, "C15.events", sp.loc(), "splitting a multi-id Event gives one Event per id", sp.key, f"return {show(v)}")
@@ -378,6 +399,47 @@ def rule_events(ctx: Ctx):
     rep.check(bool(strs), "C15.events", ei.loc(), "a string is one designator, not a sequence of characters", ei.key, "no isinstance(obj, str) test")
 
 
+def _enum_loop_form(ctx: Ctx, fn, p, obj: str):
+    """from_enum written as an explicit loop filling a dict: one record per iteration on this path."""
+    rep = ctx.rep
+    evs = p.events
+    its = [e for e in evs if e.kind == "iter" and e.x.get("loop") == "for"]
+    marks = [e for e in evs if e.kind in ("iter", "exhaust") and e.x.get("loop", "for") == "for" and xshow(e.term, evs) == fn.params[1]]
+    if not its:
+        return  # no member: nothing is registered on this path
+    for a, b in zip(marks, marks[1:]):
+        if a.kind != "iter":
+            continue
+        e = show(a.x["elem"])
+        seg = evs[a.idx + 1: b.idx]
+        stores = [x for x in seg if x.kind == "store" and x.x.get("subscript") and show(x.term.value) == obj]
+        if len(stores) != 1:
+            rep.violation("C15.enum", a.loc(), f"an enum member registers {len(stores)} states (one expected, unconditionally)", fn.key, norm_stmt(a.node))
+            continue
+        stv = stores[0]
+        rep.check(xshow(stv.term.slice, evs) == f"{e}.name", "C15.enum", stv.loc(), "the state id is the enum member's name", fn.key, f"key: {xshow(stv.term.slice, evs)}")
+        st = expand1(stv.x["value"], evs)
+        kw = {k.arg: k.value for k in st.keywords} if isinstance(st, ast.Call) and show(st.func) == "State" else {}
+        init = expand1(kw["initial"], evs) if "initial" in kw else None
+        ok_i = isinstance(init, ast.Compare) and isinstance(init.ops[0], (ast.Is, ast.Eq)) and {show(init.left), show(init.comparators[0])} == {e, fn.params[2]}
+        rep.check(bool(ok_i), "C15.enum", stv.loc(), "exactly the member given as `initial` is the initial state", fn.key, f"initial={show(init)}")
+        fin = expand1(kw["final"], evs) if "final" in kw else None
+        fin_x = xshow(fin, evs) if fin is not None else ""
+        ok_f = isinstance(fin, ast.Compare) and isinstance(fin.ops[0], ast.In) and show(fin.left) == e and \
+            xshow(fin.comparators[0], evs) == f"set(ensure_iterable({fn.params[3]}))"
+        rep.check(bool(ok_f), "C15.enum", stv.loc(), "the members given as `final` (one or several) are the final states", fn.key, f"final={fin_x}")
+        val = kw.get("value")
+        flag = [x.x["taken"] for x in evs[: stv.idx] if x.kind == "branch" and show(x.term) == fn.params[4]]
+        if isinstance(val, ast.IfExp):
+            ok_v = show(val.test) == fn.params[4] and show(val.body) == e and show(val.orelse) == f"{e}.value"
+        elif flag:
+            ok_v = xshow(val, evs) == (e if flag[-1] else f"{e}.value") if val is not None else False
+        else:
+            ok_v = False
+        rep.check(bool(ok_v), "C15.enum", stv.loc(), "the state value is the member or its value, by the flag", fn.key,
+                  f"value={show(val) if val is not None else None} (flag {flag[-1] if flag else 'not tested'})")
+
+
 def rule_enum(ctx: Ctx):
     rep = ctx.rep
     fn = ctx.fn("States.from_enum")
@@ -390,6 +452,9 @@ def rule_enum(ctx: Ctx):
         d = expand1(v.args[0], evs) if ok else None
         if ok and isinstance(d, ast.Name):
             d = expand(d, evs)
+        if ok and isinstance(v.args[0], ast.Name) and v.args[0].id.startswith(("$l", "$c")) and not isinstance(d, ast.DictComp):
+            _enum_loop_form(ctx, fn, p, v.args[0].id)
+            continue
         ok = ok and isinstance(d, ast.DictComp) and len(d.generators) == 1 and not d.generators[0].ifs and show(d.generators[0].iter) == fn.params[1]
         if not ok:
             rep.unrecognised("C15.enum", fn.loc(), f"from_enum returns `{show(v)}`")
